@@ -49,6 +49,7 @@ type TraceEv struct {
 	Status      int    `json:"status"`       // wrote: res.StatusCode
 	Err         string `json:"err"`          // error text or ""
 	AfterTunnel bool   `json:"after_tunnel"` // set by the harness when it had already closed the tunnel
+	ErrHdr      string `json:"err_hdr"`      // wrote: value of the X-Forwarder-Error field (diagnostics)
 }
 
 // Rig is a running proxy.
@@ -206,6 +207,7 @@ func (r *Rig) onWrote(res *http.Response, err error) {
 	ev := TraceEv{Kind: "wrote"}
 	if res != nil {
 		ev.Status = res.StatusCode
+		ev.ErrHdr = res.Header.Get(forwarder.ErrorHeader)
 		if res.Request != nil {
 			ev.HasReq = true
 			ev.Method = res.Request.Method
